@@ -365,6 +365,26 @@ def check_windows(case):
             raise Failure('window', 'windows %s at label %r: values %s expected positions %s' % (kw, gl, got, ww))
         if gl2 is not None and gl2 != [canon(labels[p]) for p in ww]:
             raise Failure('window-labels', 'windows %s at label %r: window labels %s' % (kw, gl, gl2))
+    # the values-only forms yield exactly the windows of the items form, and apply() labels one result per window
+    if t.startswith('series'):
+        node = (lambda: s.iter_window_array(**kw)) if t.endswith('array') else (lambda: s.iter_window(**kw))
+    elif t.startswith('frame0'):
+        node = (lambda: f.iter_window_array(**kw)) if t.endswith('array') else (lambda: f.iter_window(**kw))
+    else:
+        node = lambda: f.iter_window(axis=1, **kw)  # noqa: E731
+    vr = lib(lambda: list(node()))
+    if isinstance(vr, Raised):
+        raise Failure('raised:%s' % vr.cls, 'iter_window(%s) (values only) raised %r' % (kw, vr.exc), vr.where)
+    if len(vr) != len(r) or any(obs.snap(a) != obs.snap(b) for a, (_, b) in zip(vr, r)):
+        raise Failure('values-form', 'windows %s: the values-only form yields %d windows %s, the items form %d windows %s' % (
+            kw, len(vr), short([obs.snap(a)[-1] for a in vr], 200), len(r), short([obs.snap(b)[-1] for _, b in r], 200)))
+    if want and len({wl for wl, _ in want}) == len(want):  # (repeated window labels cannot label a result: rightly rejected)
+        ar = lib(lambda: node().apply(lambda w: int(np.asarray(w.values if hasattr(w, 'values') else w).size)))
+        if isinstance(ar, Raised):
+            raise Failure('raised:%s' % ar.cls, 'iter_window(%s).apply raised %r' % (kw, ar.exc), ar.where)
+        al = obs.labels_of(ar.index)
+        if al != [canon(labels[wl]) for wl, _ in want]:
+            raise Failure('apply-labels', 'windows %s: apply() labels %s expected %s' % (kw, short(al), short([labels[wl] for wl, _ in want])))
     return {'nt': len(want) >= 2, 'cls': ['w:' + t, 'sized' if case['sized'] else 'unsized', 'step:%d' % case['step'], 'inc:%d' % case['inc']]}
 
 
